@@ -10,7 +10,7 @@
    for the kernels listed at the end of this file, by a proof about the
    instruction list that tools/asm2prog.py regenerates from the .s files on
    every run, executed by the machine model of X86.v: see DESIGN.md 4.C13. *)
-From Strcase Require Import Base Utf8 Spec Kernels X86 X86NonASCII.
+From Strcase Require Import Base Utf8 Spec Kernels X86 X86NonASCII X86IndexByte.
 From StrcaseGen Require Import AsmProg.
 
 Theorem C13_index_byte_generic : forall s c, wf s -> 0 <= c < 256 -> index_byte_generic s c = k_index_byte s c.
@@ -55,6 +55,28 @@ Proof.
   - exact (index_non_ascii_byt A s junk slot avx2 popcnt c HA Hl Hw r0).
 Qed.
 Print Assumptions C13_asm_index_non_ascii.
+
+(* IndexByte / IndexByteString (indexbyte_go122_amd64.s, 209 instructions: the letter test of the wrappers, the
+   body for letters and the body for other needles, each with its small / end-of-page / SSE / AVX2 paths): for
+   every needle byte the run ends with the result slot holding the scalar definition k_index_byte s c — the
+   least i with s[i] == c or, for an ASCII letter c, s[i] equal to c's other case (C13_scalar_index_is_least). *)
+Theorem C13_asm_index_byte : forall A s junk slot avx2 popcnt c r0,
+  4096 <= A -> A + X86.len s < two63 -> wf s ->
+  (exists fuel, X86.run A s junk slot avx2 popcnt c prog_indexbyte_go122_amd64 fuel
+                  entry_indexbyte_go122_amd64_IndexByte (init r0) = Done (Some (k_index_byte s (c mod 256)))) /\
+  (exists fuel, X86.run A s junk slot avx2 popcnt c prog_indexbyte_go122_amd64 fuel
+                  entry_indexbyte_go122_amd64_IndexByteString (init r0) = Done (Some (k_index_byte s (c mod 256)))).
+Proof.
+  intros A s junk slot avx2 popcnt c r0 HA Hl Hw. split.
+  - exact (index_byte_asm_byt A s junk slot avx2 popcnt c HA Hl Hw r0).
+  - exact (index_byte_asm_str A s junk slot avx2 popcnt c HA Hl Hw r0).
+Qed.
+Print Assumptions C13_asm_index_byte.
+
+Example C13_asm_index_byte_runs :
+  X86.run 8149 (repeat 97 37 ++ [75; 98; 107]) (fun _ => 107) 64 true true 107 prog_indexbyte_go122_amd64 300
+          entry_indexbyte_go122_amd64_IndexByteString (init (fun _ => 12345)) = Done (Some 37).
+Proof. vm_compute. reflexivity. Qed.
 
 (* the premises are satisfiable and the machine really runs: a 40-byte argument ending 3 bytes before a page end *)
 Example C13_asm_runs :
